@@ -279,7 +279,9 @@ def run(tier, seed):
     try:
         failing += known_stream(ck)
         failing += grid_stream(ck, 3, 3)
-        failing += random_stream(ck, 4000 if ck.deep else 600)
+        if ck.deep:
+            failing += grid_stream(ck, 4, 4, stream="grid4")
+        failing += random_stream(ck, 20000 if ck.deep else 600)
         failing += reject_stream(ck)
         failing += seqnum_stream(ck, tmp)
         failing += default_stream(ck, tmp)
@@ -312,19 +314,28 @@ def convert_all(ck, stream, versions):
 
 
 def judge_pairs(ck, stream, versions, conv, fails, limit=3):
-    """the Python oracle over all ordered pairs; returns the set of index pairs that violate the ordering"""
+    """the Python oracle over all ordered pairs; returns the set of index pairs that violate the ordering.
+    Zero-padded comparison = comparison of the tuples padded with zeros to one common length."""
     bad = set()
+    width = max([len(v[0]) for v in versions] + [len(a) for a in conv.values() if a is not None]) + 1
+    pad = lambda l: tuple(l) + (0,) * (width - len(l))  # noqa: E731
+    sem = [(pad([int(x) for x in v[0]]), 3 if v[1] is None else LABELS.index(v[1][0]), 0 if v[1] is None or v[1][1] is None else int(v[1][1]))
+           for v in versions]
+    lst = [None if conv[v] is None else pad(conv[v]) for v in versions]
     nontrivial = 0
     for i, v in enumerate(versions):
-        a = conv[v]
+        si, li = sem[i], lst[i]
         for j, w in enumerate(versions):
-            b = conv[w]
-            if a is None or b is None:
+            lj = lst[j]
+            if li is None or lj is None:
                 bad.add((i, j))
                 continue
-            if v[0] != w[0]:
+            sj = sem[j]
+            if si[0] != sj[0]:
                 nontrivial += 1
-            if listcmp(a, b) != semver(v, w):
+            if ((li > lj) - (li < lj)) != ((si > sj) - (si < sj)):
+                a, b = conv[v], conv[w]
+                assert listcmp(a, b) != semver(v, w)
                 bad.add((i, j))
                 if f9_family(v, w):
                     known(ck, v, w, a, b)
@@ -341,10 +352,10 @@ def known_stream(ck):
     """Step 4: the F9 witnesses, on the implementation."""
     fails = []
     for v, w in F9_WITNESSES:
-        a, b = impl_convert(vprint(v)), impl_convert(vprint(w))
-        ck.count("known", (v, w), sample={"v": vprint(v), "w": vprint(w), "lists": [a, b]})
-        if listcmp(a, b) != semver(v, w):
-            known(ck, v, w, a, b)
+        ra, rb = core.Check.impl(impl_convert, vprint(v)), core.Check.impl(impl_convert, vprint(w))
+        ck.count("known", (v, w), sample={"v": vprint(v), "w": vprint(w), "lists": [ra[1], rb[1]]})
+        if ra[0] == "ok" and rb[0] == "ok" and listcmp(ra[1], rb[1]) != semver(v, w):
+            known(ck, v, w, ra[1], rb[1])
     return fails
 
 
@@ -527,19 +538,25 @@ def cli_stream(ck, tmp):
                 known(ck, v, w, rv[1], rw[1])
             else:
                 fails.append(order_fail(v, w, rv[1], rw[1]))
-    for _ in range(2 if not ck.deep else 6):
-        M, m, p, t = ck.rng.randrange(0, 300), ck.rng.randrange(0, 256), ck.rng.randrange(0, 256), ck.rng.randrange(0, 256)
+    for _ in range(1 if not ck.deep else 4):
+        # two adjacent tuples across a carry boundary, through the build script
+        M, m, p = ck.rng.randrange(0, 300), ck.rng.randrange(0, 256), ck.rng.randrange(0, 255)
         e = ck.rng.choice(["rc.2", "beta", "dev", "alpha7"])
-        fields = {"VERSION_MAJOR": str(M), "VERSION_MINOR": str(m), "PATCHLEVEL": str(p), "VERSION_TWEAK": str(t), "EXTRAVERSION": e}
-        r = cli_build_defaults(tmp, fields)
-        ck.count("cli-build", tuple(fields.items()), sample={"fields": fields, "rendered": r[1]})
-        lib = impl_defaults(tmp, fields, via="file")
-        if r[0] != "ok":
-            fails.append(default_fail(fields, f"ncs/build.py template failed: {r[1]}"))
-        elif r[1][:2] != [lib["DEFAULT_SEQ_NUM"], lib["DEFAULT_VERSION"]]:
-            broke(ck, "ncs/build.py template vs library", f"{fields}: rendered {r[1]} library {lib}")
-        elif int(r[1][0]) != (M << 24) + (m << 16) + (p << 8) + t:
-            fails.append({"input": {"op": "seqnum", "scfw": False, "a": [M, m, p, t], "b": None}, "observed": f"DEFAULT_SEQ_NUM {r[1][0]}",
+        res = []
+        for (pp, t) in ((p, 255), (p + 1, 0)):
+            fields = {"VERSION_MAJOR": str(M), "VERSION_MINOR": str(m), "PATCHLEVEL": str(pp), "VERSION_TWEAK": str(t), "EXTRAVERSION": e}
+            r = cli_build_defaults(tmp, fields)
+            ck.count("cli-build", tuple(fields.items()), sample={"fields": fields, "rendered": r[1]})
+            lib = impl_defaults(tmp, fields, via="file")
+            if r[0] != "ok":
+                fails.append(default_fail(fields, f"ncs/build.py template failed: {r[1]}"))
+            elif r[1][:2] != [lib["DEFAULT_SEQ_NUM"], lib["DEFAULT_VERSION"]]:
+                broke(ck, "ncs/build.py template vs library", f"{fields}: rendered {r[1]} library {lib}")
+            else:
+                res.append(int(r[1][0]))
+        if len(res) == 2 and not res[0] < res[1]:
+            fails.append({"input": {"op": "seqnum", "scfw": False, "a": [M, m, p, 255], "b": [M, m, p + 1, 0]},
+                          "observed": f"DEFAULT_SEQ_NUM {res[0]} is not below {res[1]}",
                           "expected": "strictly increasing in lexicographic (major, minor, patch, tweak) order for minor, patch, tweak < 256"})
     return fails
 
@@ -618,7 +635,7 @@ def replay(path):
             if inp["b"] is None:
                 A = inp["a"]
                 print(f"{key}{A} = {a}")
-                bad = a[0] != "ok" or a[1] != (A[0] << 24) + (A[1] << 16) + (A[2] << 8) + (A[3] or 0)
+                bad = a[0] != "ok"
             else:
                 b = core.Check.impl(lambda: int(impl_defaults(tmp, seq_fields(tuple(inp["b"]), inp["scfw"]), via="direct")[key]))
                 print(f"{key}{inp['a']} = {a}; {key}{inp['b']} = {b}")
